@@ -164,12 +164,25 @@ func genScript(t *simrt.Tape) replScript {
 	return sc
 }
 
-func replOS(t *simrt.Tape, sc replScript, cli bool) *simos.OS {
+// programs for the single-evaluation (CLI) mode; some first run an inner evaluation that
+// ends with an error or is abandoned, so that finished evaluations are on record when the
+// interrupt arrives
+var replCLIProgs = []string{
+	`range(60), (.k | .[])`,
+	`(try eval("error(\"inner\")") catch "caught"), range(80)`,
+	// not here: first(eval("1, 2")) - an evaluation abandoned by its consumer stays on the stack
+	// until the enclosing one finishes and absorbs the next interrupt (DESIGN section 4: neither
+	// "in progress" nor "finished" in the words of the statement, so not flagged)
+	`(try (eval("1, error(\"x\")") | tostring) catch "c"), (range(70) | tostring)`,
+	`[eval("1,2,3")], range(90)`,
+}
+
+func replOS(t *simrt.Tape, sc replScript, cli bool, cliProg string) *simos.OS {
 	o := simos.New(t)
 	o.Disk.Benign = true
 	o.AddFile("in.json", simos.Regular, []byte(`{"k": [1, 2, 3]}`+"\n"))
 	if cli {
-		o.ArgsV = []string{"fq", "-c", "range(60), (.k | .[])", "in.json"}
+		o.ArgsV = []string{"fq", "-c", cliProg, "in.json"}
 	} else {
 		o.ArgsV = []string{"fq", "-i", ".", "in.json"}
 		o.Lines = sc.lines
@@ -181,7 +194,8 @@ func replOS(t *simrt.Tape, sc replScript, cli bool) *simos.OS {
 func (*hrepl) Run(rc *core.RunCtx) *core.RunResult {
 	res := core.NewResult()
 	t := rc.T
-	cli := t.Intn(6) == 0
+	cli := t.Intn(5) == 0
+	cliProg := replCLIProgs[t.Intn(len(replCLIProgs))]
 	sc := genScript(t)
 	nInts := t.Intn(4)
 	// interrupts are addressed by OS event number (terminal writes, readline calls and
@@ -196,7 +210,7 @@ func (*hrepl) Run(rc *core.RunCtx) *core.RunResult {
 	var refOut []byte
 	var refReads int
 	if !rc.Race {
-		ro := replOS(t, sc, cli)
+		ro := replOS(t, sc, cli, cliProg)
 		rr := runFQ(t, ro, fqOpts{Policy: simrt.PolSequential})
 		res.Steps += rr.Stats.Steps
 		if !rr.abnormal(res, "C20", "reference session "+strings.Join(sc.descr, " ; ")) {
@@ -218,7 +232,7 @@ func (*hrepl) Run(rc *core.RunCtx) *core.RunResult {
 	}
 	sort.Ints(targets)
 	// the session under interrupts
-	o := replOS(t, sc, cli)
+	o := replOS(t, sc, cli, cliProg)
 	type sent struct {
 		seq    int
 		ok     bool
@@ -280,6 +294,9 @@ func (*hrepl) Run(rc *core.RunCtx) *core.RunResult {
 	}
 	res.Sample = map[string]any{"interrupt_points": intDescr, "out_len": len(o.Out.Buf), "os_events": o.Seq(), "steps": run.Stats.Steps, "mode": mode, "script": strings.Join(sc.descr, " ; "), "interrupts_sent": len(ints), "delivered": delivered, "policy": run.Stats.Policy, "readline_calls": len(o.RL), "exit": run.Res.Exit}
 	what := fmt.Sprintf("%s session [%s] with %d interrupts", mode, strings.Join(sc.descr, " ; "), delivered)
+	if cli {
+		what = fmt.Sprintf("cli run of %q with %d interrupts", cliProg, delivered)
+	}
 	if !run.abnormal(res, "C20", what) {
 		return res
 	}
@@ -297,6 +314,26 @@ func (*hrepl) Run(rc *core.RunCtx) *core.RunResult {
 		}
 	}
 	if cli {
+		// an interrupt cancels the one evaluation there is: once it has been fully processed
+		// after the first write, at most the write already past the context check may follow
+		firstTag, late := -1, 0
+		for wi := range o.Out.WriteAt {
+			if wi >= len(o.Out.WriteTag) {
+				break
+			}
+			if firstTag < 0 {
+				firstTag = o.Out.WriteTag[wi]
+				continue
+			}
+			if o.Out.WriteTag[wi] > firstTag {
+				late++
+			}
+		}
+		res.Probes["cli_sessions"]++
+		if late >= 2 {
+			viol("output-after-cancellation", "cli", "program %q: an interrupt was fully processed after the first write, yet %d further writes reached the terminal", cliProg, late)
+			return res
+		}
 		// one evaluation: its output is the reference with at most one piece per interrupt removed
 		if delivered == 0 {
 			if !bytes.Equal(o.Out.Buf, refOut) {
